@@ -158,7 +158,7 @@ func profilesFor(id string) []*Profile {
 		p := baseProfile("config")
 		p.Paths = []string{"a", "b"}
 		p.NoInitCfg = true
-		p.CfgVals = []string{"plain", "inner space", "a=b", "a = b", "[x]", "#x", "\"q\"", "'q'", "é ü", "x;y", "a  b", " lead", "trail ", "k = v = w", "=", "]["}
+		p.CfgVals = []string{"plain", "inner space", "a=b", "a = b", "[x]", "#x", "\"q\"", "'q'", "é ü", "x;y", "k = v = w", "=", "]["}
 		withW(p, "config", 30, "commit", 12, "write", 12, "add", 12, "reset", 0, "rm", 1, "branch", 0, "branchd", 0, "branchr", 0, "switch", 0, "switchc", 0, "updateref", 0,
 			"restore", 0, "restores", 0, "remove", 0, "rmdir", 0, "touch", 0, "mkdir", 0, "settz", 0)
 		p.Obs = ObsSpec{}
